@@ -208,6 +208,20 @@ CHECKS.append({
             "implementation oracle (2e-5 / 6e-3 / 5e-3 of the property text).",
 })
 
+CHECKS.append({
+    "property_id": "C04",
+    "design_ref": "DESIGN.md 5 (C04), 7",
+    "technique": "Coq proof (real analysis: sqrt algebra, field/nra) of the structural reasons the renderers agree, over formulas regenerated from rendering.py "
+                 "+ interval correspondence with the arguments the real hybrid renderer passes to its kernels; implementation-side band oracle vs a float64 reference",
+    "text": "Five theorems (Props/C04.v) for all parameters: PSF broadening adds s^2 to both principal variances, so each real-space component of the hybrid "
+            "renderer is the Gaussian with covariance R diag(sigma^2,q^2 sigma^2) R^T + s^2 I; the component index sets partition 0..n_sigma-1 and coincide "
+            "with the Fourier renderer at m=0; the 1-D profile is scale covariant (a unit-flux unit-radius table serves all flux/r_eff); the cubic Hermite "
+            "interpolant returns table rows at the knots.  PARTIAL: the numerical bands of the property (12%/10%, 18%/15%, 2%/2%, 6e-3, 1e-3) are not theorems.",
+    "note": "Trusted: Coq kernel, Interval, Reals axioms; translator units Formulas/Amps; capture of kernel arguments in the harness.  Every image-level error "
+            "band is numerical analysis of an approximation (Gaussian-mixture error, PSF pixelisation, fixed quadrature) and is only exercised by the "
+            "implementation-side oracle against ref/refrender.py; a change that stays inside the bands is reported with no-failing-input-found.",
+})
+
 _PENDING = "check not built yet in this session (build order in DESIGN.md section 9); will be claimed once its Coq model, theorems and tie exist"
 NOT_APPLICABLE = [
     {"property_id": "C%02d" % i, "reason": _PENDING}
